@@ -3,6 +3,7 @@ import OAuth2Model.Driver.Req
 import OAuth2Model.Driver.Poll
 import OAuth2Model.Driver.AuthUrl
 import OAuth2Model.Driver.Pkce
+import OAuth2Model.Driver.UrlT
 
 def dispatch (line : String) : String :=
   match (line.trimAscii.toString.splitOn " ").filter (· ≠ "") with
@@ -17,6 +18,7 @@ def dispatch (line : String) : String :=
     | "pkce_gen" => Drv.PkceOp.runGen args
     | "pkce_flow" => Drv.PkceOp.runFlow args
     | "rand" => Drv.PkceOp.runRand args
+    | "url" => Drv.UrlOp.run args
     | _ => "bad-op"
 
 partial def loop (h : IO.FS.Stream) (out : IO.FS.Stream) : IO Unit := do
